@@ -325,8 +325,9 @@ def _standins(vc):
     vc.native_standins.append(dict(
         name="nodal balance and res_bus on a fixed network with the bus elements outside the deductive part",
         bound="one 5-bus 110 kV network with a dcline, storage, ward, shunt, gen and loads; AC power flow; per bus: element results against "
-              "branch flows, res_bus.p_mw / q_mvar against the elements' own results (dcline terminals counted as bus elements)",
-        script="from replaylib.nodal import main_elements\nmain_elements()\n",
+              "branch flows, res_bus.p_mw / q_mvar against the elements' own results (dcline terminals counted as bus elements); a shunt following "
+              "a step table at step 0 and 2; a DC power flow of a net with an SSC (refused or finite)",
+        script="from replaylib import run_all\nfrom replaylib.nodal import main_elements, main_tables_and_facts\nrun_all(main_elements, main_tables_and_facts)\n",
         known={F_DCLINE: r"network with a dcline: bus \d+: res_bus\.(p_mw|q_mvar) .* != net element consumption"}))
 
 
